@@ -453,6 +453,19 @@ func main() {
 	res := vrt.Init()
 	if *vrt.ReplayPath != "" {
 		var rp replay
+		var sp struct{ SplitByTags []int }
+		vrt.LoadReplay(&sp)
+		if sp.SplitByTags != nil {
+			checkSplitByTags(res)
+			for _, v := range res.Violations {
+				fmt.Println(v.Key, "\n ", v.Msg)
+			}
+			if len(res.Violations) > 0 {
+				fmt.Printf("VIOLATION property=C15 replay=%s\n", *vrt.ReplayPath)
+				os.Exit(1)
+			}
+			return
+		}
 		vrt.LoadReplay(&rp)
 		r := &run{}
 		o, key, msg, trace := vsched.Replay(vsched.Config{Body: body(rp.Cfg, r), Check: check(rp.Cfg, r, map[string]struct{}{})}, rp.Choices)
@@ -500,5 +513,6 @@ func main() {
 	}
 	res.Info["configs"] = info
 	res.SetDistinctKeys(outcomes)
+	checkSplitByTags(res)
 	res.Finish()
 }
